@@ -344,6 +344,16 @@ func (in *instr) plan(body ast.Node) {
 					in.acts[argKey{n, 0}] = actDeleteMap
 				}
 			case "":
+				// a conversion of a byte or rune slice to a string reads every element
+				if tv, ok := in.info.Types[n.Fun]; ok && tv.IsType() && len(n.Args) == 1 {
+					if b, ok := tv.Type.Underlying().(*types.Basic); ok && b.Kind() == types.String {
+						if at := in.typeOf(n.Args[0]); at != nil {
+							if _, isSlice := at.Underlying().(*types.Slice); isSlice {
+								in.acts[argKey{n, 0}] = actExtRead
+							}
+						}
+					}
+				}
 				// a function outside this package reads (package sort: permutes) the elements of slices handed to it
 				if pkgPath, ok := in.externalCallee(n); ok {
 					for i, a := range n.Args {
